@@ -628,7 +628,8 @@ fn norm_eq(v: &Value, got: &Value, norms: &mut Vec<&'static str>) -> bool {
 }
 
 fn path_step(cx: &Ctx, s: &Settings, path: &str, v: &Value, pclass: &'static str, vclass: &'static str, out: &mut Out) -> Option<Settings> {
-    let wit = |extra: Value| json!({"op": "path", "base": cx.base_name, "path": path, "value": short(v), "detail": extra, "value_full": v, "state_before": to_v(s)});
+    let note = if pclass == "degenerate-path" { "degenerate path (empty segment); the same defect shows with any key that is not in the schema, e.g. 'core.zz_unknown' — such a witness is preferred when both occur, hence this long note" } else { "" };
+    let wit = |extra: Value| json!({"op": "path", "base": cx.base_name, "path": path, "value": short(v), "detail": extra, "value_full": v, "state_before": to_v(s), "note": note});
     out.evals += 1;
     let r1 = match call(|| s.with_value(path, v.clone())) {
         Ok(r) => r,
@@ -835,6 +836,23 @@ fn main() {
         std::process::exit(if out.violations.is_empty() { 0 } else { 1 });
     }
 
+    // directed cases (run on every invocation): the path API on keys that are not in the schema,
+    // and a nested overlay on a state that differs from the defaults
+    let mut total = Out::default();
+    {
+        let cx = Ctx { schema: &schema, base_name: "defaults" };
+        let s0 = Settings::new();
+        for (p, v, pc) in [("core.zz_unknown", json!(1), "unknown-key-in-section"), ("zz_top", json!(1), "unknown-top-level"), ("verify.verify_trust", json!(false), "schema-leaf"), ("builder.thumbnail", json!({"enabled": false}), "schema-section")] {
+            path_step(&cx, &s0, p, &v, pc, "directed", &mut total);
+        }
+        let primed = Doc { value: json!({"builder": {"thumbnail": {"enabled": false, "long_edge": 77}}, "verify": {"ocsp_fetch": true}}), classes: vec!["directed"], shapes: vec!["directed"] };
+        if let Some(s1) = overlay_step(&cx, &s0, &primed, false, &mut total) {
+            let d = Doc { value: json!({"builder": {"thumbnail": {"ignore_errors": false}}}), classes: vec!["directed"], shapes: vec!["directed-nested-merge"] };
+            overlay_step(&cx, &s1, &d, false, &mut total);
+            let d = Doc { value: json!({"version": 2}), classes: vec!["directed"], shapes: vec!["directed-unsupported-version"] };
+            overlay_step(&cx, &s1, &d, false, &mut total);
+        }
+    }
     let n_hist = run.tier.pick(40_000usize, 800_000);
     let chunk = 200usize;
     let seed = run.seed;
@@ -886,7 +904,6 @@ fn main() {
         }
         out
     });
-    let mut total = Out::default();
     for o in outs {
         total.merge(o);
     }
